@@ -3,6 +3,12 @@ Catalogue of hand-written mutants for the sensitivity self-test: one textual rep
 the property it is meant to break.  `props` = the checks expected to kill it.
 """
 O = "prtpy/objectives.py"
+FF = "prtpy/packing/first_fit.py"
+BF = "prtpy/packing/best_fit.py"
+BC = "prtpy/packing/bin_completion.py"
+BCU = "prtpy/packing/bin_completion_utils.py"
+CB = "prtpy/partitioning/cbldm.py"
+BN = "prtpy/binners.py"
 
 MUTANTS = [
     # ---- C20 objectives
@@ -27,4 +33,55 @@ MUTANTS = [
     dict(id="obj-diff-fast-abs", props=["C20"], file=O, what="difference fast path uses second-largest",
          old="return sums[-1] - sums[0] if are_sums_in_ascending_order else max(sums) - min(sums)",
          new="return sums[-1] - sums[0] if are_sums_in_ascending_order else max(sums) - sorted(sums)[min(1,len(sums)-1)] if len(sums)>3 else max(sums) - min(sums)"),
+    # ---- C19 refusals
+    dict(id="ff-oversize-tolerance", props=["C19", "C03"], file=FF, what="first fit tolerates an item one unit above the bin size",
+         old="        if value>binsize:", new="        if value>binsize+1:"),
+    dict(id="ff-oversize-only-when-bins-nonempty", props=["C19", "C03"], file=FF,
+         what="first fit checks oversize only from the second item on",
+         old="        if value>binsize:", new="        if value>binsize and binner.sums(bins)[0]>0:"),
+    dict(id="bf-oversize-checks-name", props=["C19"], file=BF, what="best fit compares the item (name) instead of its value",
+         old="        if value > binsize:", new="        if item > binsize:"),
+    dict(id="bf-oversize-typeerror", props=["C19"], file=BF, what="best fit raises a different exception type",
+         old='            raise ValueError(f"Item {item} has size {value} which is larger than the bin size {binsize}.")',
+         new='            raise OverflowError(f"Item {item} has size {value} which is larger than the bin size {binsize}.")'),
+    dict(id="bc-oversize-first-only", props=["C19", "C03"], file=BC, what="EQUIVALENT: bin completion skips its own scan for >= 2 items, but its BFD incumbent still raises ValueError",
+         old="        if binner.valueof(item) > binsize:\n            raise ValueError(f\"Item {item} is not valid",
+         new="        if binner.valueof(item) > binsize and len(items) < 2:\n            raise ValueError(f\"Item {item} is not valid"),
+    dict(id="bc-oversize-filtered", props=["C19", "C03"], file=BC,
+         what="bin completion checks only a lone item for oversize and filters oversize items out with the zeros",
+         old="    items = [item for item in items if binner.valueof(item)!=0]",
+         new="    items = [item for item in items if 0 < binner.valueof(item) <= binsize]",
+         more=[dict(file=BC, old="        if binner.valueof(item) > binsize:\n            raise ValueError(f\"Item {item} is not valid",
+                    new="        if binner.valueof(item) > binsize and len(items) < 2:\n            raise ValueError(f\"Item {item} is not valid")]),
+    dict(id="cbldm-numbins-lt2", props=["C19"], file=CB, what="cbldm accepts more than two bins",
+         old="    if numbins != 2:", new="    if numbins < 2:"),
+    dict(id="cbldm-timelimit-zero-ok", props=["C19"], file=CB, what="cbldm accepts a zero time limit",
+         old="    if time_limit <= 0:", new="    if time_limit < 0:"),
+    dict(id="cbldm-bound-and", props=["C19"], file=CB, what="cbldm validates the bound with 'and'",
+         old="    if partition_difference < 1 or not isinstance(partition_difference, int):",
+         new="    if partition_difference < 1 and not isinstance(partition_difference, int):"),
+    dict(id="cbldm-negative-first", props=["C19"], file=CB, what="cbldm tests the largest item for negativity",
+         old="    if binner.valueof(sorted_items[-1])<0:", new="    if binner.valueof(sorted_items[0])<0:"),
+    dict(id="sums-numitems-zero", props=["C19"], file=BN, what="sums-only manager's numitems invents 0",
+         old='        raise NotImplementedError("Bins keeping sums do not keep track of the number of items.")',
+         new='        return 0'),
+    # ---- C12 / C11 cbldm
+    dict(id="cbldm-leaf-len-strict", props=["C12"], file=CB, what="leaf accepted only if cardinality gap < bound",
+         old="if new_len_delta <= self.len_delta and new_sum_delta < self.sum_delta:",
+         new="if new_len_delta < self.len_delta and new_sum_delta < self.sum_delta:"),
+    dict(id="cbldm-leaf-ignores-len", props=["C12"], file=CB, what="leaf accepted whatever its cardinality gap when it is perfect",
+         old="if new_len_delta <= self.len_delta and new_sum_delta < self.sum_delta:",
+         new="if (new_len_delta <= self.len_delta or new_sum_delta == 0) and new_sum_delta < self.sum_delta:"),
+    dict(id="cbldm-card-prune-ge", props=["C12"], file=CB, what="cardinality prune fires on equality",
+         old="if 2 * max_m - sum_mi > self.len_delta:", new="if 2 * max_m - sum_mi >= self.len_delta:"),
+    dict(id="cbldm-sum-prune-minus2", props=["C12", "C11"], file=CB, what="sum prune too eager by 2",
+         old="if 2 * max_x - sum_xi >= self.sum_delta:", new="if 2 * max_x - sum_xi >= self.sum_delta - 2:"),
+    dict(id="cbldm-sum-prune-minus1", props=["C12"], file=CB, what="EQUIVALENT (parity): sum prune too eager by 1",
+         old="if 2 * max_x - sum_xi >= self.sum_delta:", new="if 2 * max_x - sum_xi >= self.sum_delta - 1:"),
+    dict(id="cbldm-optimal-at-2", props=["C12", "C11"], file=CB, what="search stops as soon as a difference <= 2 is found",
+         old="                if self.sum_delta == 0:", new="                if self.sum_delta <= 2:"),
+    dict(id="cbldm-split-equals-combine", props=["C12"], file=CB, what="the differencing branch pairs the same sides as the summing branch",
+         old="(bin_index+section+1)%2)", new="(bin_index+section*2)%2)", nth=1),
+    dict(id="cbldm-default-bound-n", props=["C12"], file=CB, what="explicit bound is widened by one",
+         old="len_delta=partition_difference,", new="len_delta=partition_difference+(numitems%2==0 and partition_difference==1),"),
 ]
